@@ -10,8 +10,8 @@ from props.catalog import (mk, B, U, F, P, L, I, LG, S)
 NUM = '%&!#'
 TN = {'%': 'i', '&': 'l', '!': 's', '#': 'd', '$': 'str'}
 FVAL = {'!': [7.5, 2.25], '#': [-2.5, 1000000.5]}
-SMALL = '(-32768, -7, -1, 0, 1, 2, 5, 32767)'
-SMALL_L = '(-2147483648, -70000, -1, 0, 1, 3, 70000, 2147483647)'
+SMALL = '(-32768, -1, 0, 2, 32767)'
+SMALL_L = '(-2147483648, -1, 0, 70000, 2147483647)'
 
 
 def operands(types):
@@ -38,7 +38,8 @@ def result_var(e, name='r'):
 
 GROUPS = {
     'arith': ['+', '-', '*'],
-    'divs': ['/', '\\', 'MOD'],
+    'fdiv': ['/'],
+    'divs': ['\\', 'MOD'],
     'cmp': ['=', '<>', '<', '>', '<=', '>='],
     'logic': ['AND', 'OR', 'XOR', 'EQV', 'IMP'],
 }
@@ -57,10 +58,10 @@ for lt in NUM:
                 body.append(P(rv, ';', B('+', rv, rv) if g != 'cmp'
                               else U('NOT', rv)))
             pre = None
-            if has_float or g in ('logic', 'cmp'):
+            if has_float or g in ('logic', 'fdiv'):
+                # floats and bitwise operators are realised by CrossHair:
+                # integral operands range over a boundary set
                 pre = ' and '.join(pres) if pres else None
-            elif g == 'divs':
-                pre = ' and '.join(pres)     # '/' yields a float
             mk('tp_%s_%s%s' % (g, TN[lt], TN[rt]), names, body, pre=pre,
                head=head, family='typepair', tags=('types',), budget=600)
 
